@@ -1,5 +1,6 @@
 mod common;
 mod c12;
+mod c15;
 mod c20;
 
 fn main() {
@@ -11,6 +12,7 @@ fn main() {
     let opts = common::parse_opts(&args[1..]);
     let code = match which.to_ascii_lowercase().as_str() {
         "c12" => c12::run(opts),
+        "c15" => c15::run(opts),
         "c20" => c20::run(opts),
         other => {
             eprintln!("unknown check {other}");
